@@ -113,6 +113,7 @@ class Grid3Scales(Grid):
         None.
 
         """
+        assert spacing in ["Spectral", "Uniform"], f"Unknown spacing {spacing}"
         self._updateParameters(
             tailLengthInside,
             tailLengthOutside,
